@@ -73,6 +73,8 @@ DEFS = [
     "test t_bad { assert(1 == 2) }",
     "test t_err { g(1) }",
     "fun typed(x: Int): String { x }",
+    "fun badret(): NoSuchType { 1 }",
+    "fun badparam(x: NoSuchType) { x }",
 ]
 LETS = ["let a = 1", "let b = [1, 2]", "let s = \"str\"", "let c = Some(3)", "let a2 = a"]
 OK_EXPRS = ["1 + 2", "f(1)", "a", "b", "println(\"out\")", "[1, 2, 3]", "let i = 0 while i < 3 { i += 1 }", "for q in [1, 2] { println(string_repr(q)) }",
@@ -84,7 +86,8 @@ FAIL_TOP = ["1 / 0", "nosuch", "let q = nosuch", "[1, nosuch, 3]", "1 + nosuch",
             "println(1)", "f(1, 2)", "(5)(1)", "Pt{ x: nosuch }", "Pt{ x: 1 }.nosuchm()", "assert(1 == 2)", "throw(\"boom\")", "typed(1)",
             "[1, 2].get(9).or_throw()", "return nosuch", "nosuch 5", "1 nosuch 3", "string_repr(nosuch)", "(nosuch)", "f(nosuch)", "let (x1, y1) = 5"]
 FAIL_CALL = ["g(2)", "deep(3)", "looper(3)", "forl([1, 0, 2])", "mt(Some(1))", "f(g(1))", "[g(1), 2]", "let res = g(3)", "1 + h(0)", "typed(g(1))",
-             "if True { g(1) }", "for e in [1, 2] { g(e) }", "let i = 0 while i < 2 { i += 1 h(0) }", "(fun(z) { z / 0 })(1)", "Pt{ x: h(0) }"]
+             "if True { g(1) }", "for e in [1, 2] { g(e) }", "let i = 0 while i < 2 { i += 1 h(0) }", "(fun(z) { z / 0 })(1)", "Pt{ x: h(0) }", "badret()", "badparam(1)",
+             "1 + badret()"]
 PARSE_ERRS = ["1 +", "fun (", "let = 3", "\"unterminated", "}", "let x = ", "((("]
 COMMANDS = [":abort", ":doc", ":doc print", ":doc String::len", ":doc nosuch", ":doc f", ":doc Pt", ":doc Col", ":help", ":help :doc", ":help foo",
             ":help :nosuch", ":funs", ":load", ":load /nonexistent/file.gdn", ":locals", ":namespace", ":forget", ":forget f", ":forget nosuch",
@@ -172,7 +175,7 @@ def gen_history(rng, idx):
 def exhaustive_pairs():
     """Every state-changing command in every basic state, followed by every state-changing command again."""
     states = [[], ["1 / 0"], ["let q = nosuch"], ["g(2)"], ["g(2)", ":abort"], ["let q = nosuch", ":skip"], ["1 / 0", ":replace 5"],
-              [":test t_bad"], ["g(2)", "nosuch"], ["[1, nosuch, 3]"], ["forl([1, 0, 2])"], ["looper(3)"], ["if True { let blk = 1 nosuch }"]]
+              [":test t_bad"], ["g(2)", "nosuch"], ["typed(1)"], ["f(1, 2)"], ["typed(g(1))"], ["[1, nosuch, 3]"], ["forl([1, 0, 2])"], ["looper(3)"], ["if True { let blk = 1 nosuch }"]]
     cmds = [":skip", ":replace 5", ":replace nosuch", ":resume", ":abort", ":forget_local a", ":type 1 / 0", ":type g(1)", ":test t_err",
             "let w = nosuch", ":forget h", "g(1)", {"method": "eval_up_to", "src": "1 / 0", "offset": 2}]
     out = []
@@ -383,6 +386,15 @@ def run(ctx):
     if not ctx.thorough:
         pairs = rng.sample(pairs, 160)
     search(ctx, exe, pairs, "pairs")
+    # (b') every kind of stop (each failing request of the vocabulary: operand, call, arity, parameter and return
+    # annotation, method, assertion, throw, nested frames ...) followed by every two-step continuation
+    sweep = []
+    for fail in FAIL_TOP + FAIL_CALL:
+        for c1 in (":resume", ":skip"):
+            for c2 in (":resume", ":skip"):
+                sweep.append([req_run(d) for d in DEFS] + [req_run("let a = 1"), req_run(fail), req_run(c1), req_run(c2),
+                                                           req_run(":resume"), req_run(":abort"), req_run("f(20)")])
+    search(ctx, exe, sweep, "stop-sweep")
     # (c) random state-aware histories
     n = 6000 if ctx.thorough else 260
     hs = [gen_history(rng, i) for i in range(n)]
